@@ -215,3 +215,38 @@ class Solver:
             if st is None:
                 return None
         return st
+
+
+def decide_with(e, term, k):
+    """Truth of condition `e` when the term `term` (a norm() tuple) has the integer value k, or None when the condition also depends
+    on something else.  Handles !, && and || (three-valued), comparisons of the term with constants either way round, and a plain
+    use of the term as a truth value."""
+    e = e.strip() if e is not None else None
+    if e is None:
+        return None
+    if e.cls == "UnaryOperator" and e.op == "!":
+        v = decide_with(e.kid(0), term, k)
+        return None if v is None else not v
+    if e.cls == "BinaryOperator" and e.op in ("&&", "||"):
+        a, b = decide_with(e.kid(0), term, k), decide_with(e.kid(1), term, k)
+        if e.op == "&&":
+            if a is False or b is False:
+                return False
+            return True if (a is True and b is True) else None
+        if a is True or b is True:
+            return True
+        return False if (a is False and b is False) else None
+    if e.cls == "BinaryOperator" and e.op in NEG:
+        l, r = norm(e.kid(0)), norm(e.kid(1))
+        op = e.op
+        if r == term and l[0] == "c":
+            l, r = r, l
+            op = SWAP[op]
+        if l == term and r[0] == "c" and isinstance(r[1], int):
+            return {"==": k == r[1], "!=": k != r[1], "<": k < r[1], "<=": k <= r[1], ">": k > r[1], ">=": k >= r[1]}[op]
+        return None
+    if e.cls == "CallExpr" and e.callee == "__builtin_expect":
+        return decide_with(e.arg(0), term, k)
+    if norm(e) == term:
+        return k != 0
+    return None
